@@ -43,6 +43,9 @@ Inductive bpc : Type :=
 | BS_wait (v : val) (e : Z)                  (* 284: m_send_sem.wait(1, timeout_us): first section *)
 | BS_slp (v : val) (e : Z)                   (*      asleep in / woken from the semaphore's queue *)
 | BS_unreg (v : val) (e : Z) (to : bool)     (* 285-290: fetch_sub(1); to = wait returned -1/ETIMEDOUT *)
+| BS_rc (v : val) (e : Z)                    (* repaired code: re-check after registering: m_closed.load *)
+| BS_rct (v : val) (e : Z)                   (*                read_available: tail.load *)
+| BS_rch (v : val) (e : Z) (tl : Z)          (*                read_available: head.load; the test *)
 (* buffered_recv 294-325 / buffered_try_recv 344-355 *)
 | BR_pop (m : mode)                          (* 298 / 346: m_queue->pop *)
 | BR_lsw (m : mode) (v : val)                (* 302 / 349: m_senders_waiting.load *)
@@ -53,6 +56,9 @@ Inductive bpc : Type :=
 | BR_wait (e : Z)                            (* 318 *)
 | BR_slp (e : Z)
 | BR_unreg (e : Z) (to : bool)               (* 319-323 *)
+| BR_rc (e : Z)                              (* repaired code: re-check after registering: m_closed.load *)
+| BR_rct (e : Z)                             (*                empty(): tail.load *)
+| BR_rch (e : Z) (tl : Z)                    (*                empty(): head.load; the test *)
 (* close 143-160 *)
 | BC_x                                       (* 144: m_closed.exchange(true) *)
 | BC_ls                                      (* 155: m_senders_waiting.load *)
@@ -180,8 +186,10 @@ Definition kS (m : mode) : opkind := match m with MTry => KTrySend | MBlock _ =>
 Definition kR (m : mode) : opkind := match m with MTry => KTryRecv | MBlock _ => KRecv end.
 Definition mexp (m : mode) : Z := match m with MTry => 0 | MBlock e => e end.
 
-(* mcap = m_capacity (>= 1) *)
-Definition bstep (mcap : Z) (s : bst) (t : tid) : option bst :=
+(* mcap = m_capacity (>= 1).  fx = false: go.h as it is (finding F11); fx = true: go.h after
+   repo_patches/C09-fix-buffered-lost-wakeup.diff — after registering as a waiter and before sleeping on the
+   semaphore the caller re-checks m_closed and the ring; if the reason to wait is gone it unregisters and retries. *)
+Definition bstep (fx : bool) (mcap : Z) (s : bst) (t : tid) : option bst :=
   match b_w s t with
   | Asleep => None
   | w =>
@@ -225,7 +233,11 @@ Definition bstep (mcap : Z) (s : bst) (t : tid) : option bst :=
     | BS_exp v e =>
         if expired (b_now s) e then Some (bfinish s t KSend (Some v) RTimeout e O)
         else Some (bgoto s t (BS_reg v e))
-    | BS_reg v e => Some (bgoto (set_b_sw s (b_sw s + 1)) t (BS_wait v e))
+    | BS_reg v e => Some (bgoto (set_b_sw s (b_sw s + 1)) t (if fx then BS_rc v e else BS_wait v e))
+    | BS_rc v e => if b_closed s then Some (bgoto s t (BS_unreg v e false)) else Some (bgoto s t (BS_rct v e))
+    | BS_rct v e => Some (bgoto s t (BS_rch v e (b_head s + Z.of_nat (length (b_q s)))))
+    | BS_rch v e tl =>
+        if u64_sub tl (b_head s) <? mcap then Some (bgoto s t (BS_unreg v e false)) else Some (bgoto s t (BS_wait v e))
     | BS_wait v e =>
         match sem_try s SendSem with
         | Some s1 => Some (bgoto s1 t (BS_unreg v e false))
@@ -266,7 +278,11 @@ Definition bstep (mcap : Z) (s : bst) (t : tid) : option bst :=
     | BR_exp e =>
         if expired (b_now s) e then Some (bfinish s t KRecv None RTimeout e O)
         else Some (bgoto s t (BR_reg e))
-    | BR_reg e => Some (bgoto (set_b_rw s (b_rw s + 1)) t (BR_wait e))
+    | BR_reg e => Some (bgoto (set_b_rw s (b_rw s + 1)) t (if fx then BR_rc e else BR_wait e))
+    | BR_rc e => if b_closed s then Some (bgoto s t (BR_unreg e false)) else Some (bgoto s t (BR_rct e))
+    | BR_rct e => Some (bgoto s t (BR_rch e (b_head s + Z.of_nat (length (b_q s)))))
+    | BR_rch e tl =>
+        if tl =? b_head s then Some (bgoto s t (BR_wait e)) else Some (bgoto s t (BR_unreg e false))
     | BR_wait e =>
         match sem_try s RecvSem with
         | Some s1 => Some (bgoto s1 t (BR_unreg e false))
@@ -308,15 +324,15 @@ Definition btimer (s : bst) (t : tid) : option bst :=
   | _ => None
   end.
 
-Definition blstep (mcap : Z) (s : bst) (l : label) : option bst :=
+Definition blstep (fx : bool) (mcap : Z) (s : bst) (l : label) : option bst :=
   match l with
-  | LThr t => bstep mcap s t
+  | LThr t => bstep fx mcap s t
   | LTimer t => btimer s t
   | LTick d => Some (set_b_now s (b_now s + Z.of_nat d))
   end.
 
-Fixpoint brun (mcap : Z) (s : bst) (ls : list label) : option bst :=
+Fixpoint brun (fx : bool) (mcap : Z) (s : bst) (ls : list label) : option bst :=
   match ls with
   | [] => Some s
-  | l :: r => match blstep mcap s l with Some s' => brun mcap s' r | None => None end
+  | l :: r => match blstep fx mcap s l with Some s' => brun fx mcap s' r | None => None end
   end.
